@@ -144,7 +144,8 @@ async def _battery_run(case: dict[str, Any], vec: list[str], out: dict[str, Any]
     n_req = 2 if case.get("followup") else 1
     for k in range(n_req):
         api.calls.clear()
-        req = Request(power=Power.from_watts(case["power"]), component_ids=set(all_bats), adjust_power=True)
+        req = Request(power=Power.from_watts(case["power"]), component_ids=set(all_bats),
+                      adjust_power=bool(case.get("adjust", True)))
         await mgr.distribute_power(req)
         res = res_rx.consume() if res_rx._q else None  # noqa: SLF001
         extra = []
